@@ -22,7 +22,7 @@ CLAIMED["C14"] = {
     "note": "Also proved: DBStorage.add_event INSERT/broadcast/return require 'save authorized for this event'; BaseStorage.subscribe starts a subscription only after the query check; BaseSubscription.notify applies the output validator to live pushes (after fix). Not covered yet: LMDB add_event, the stored-query loops' output validator, role storage round trip. evaluate_target is treated as an arbitrary boolean.",
 }
 
-_LMDB_PENDING = " The LMDB backend (storage/kv.py) is not under contract yet for this property: its clauses are listed as not covered until those units are added."
+_LMDB_PENDING = " LMDB backend: LMDBStorage.add_event (typestate: validated/authorized before enqueue and broadcast), WriterThread.run (one write transaction per task, abort on any failure changes no key, no exception escapes the loop), _post_save (C08/C09 frame at every _delete_event call, through the event-level scanner contract) and Index.write/_delete_event (C10) are under contract; the index scanner's completeness is not proved (bounded check planned)."
 CLAIMED["C03"] = {
     "category": "proof",
     "text": "validators.is_canonical is verified EXACT against NIP-01 canonical form over arbitrary JSON-typed payload fields (integer created_at/kind, string content, 64/128-char lower-case hex pubkey/sig, tags = arrays of non-empty arrays of strings or plain integers, id equal to the hash of the event's own fields); is_signed returns normally only if is_canonical and Event.verify(); the validator pipeline runs every configured validator on the submitted event; in DBStorage.add_event the INSERT, both broadcasts and the normal return are guarded by typestate obligations 'validated(this event)' on every path.",
@@ -78,6 +78,17 @@ CLAIMED["C20"] = {
     "category": "proof",
     "text": "NotifyServer.handle_notify: every chunk consumed from an origin is exactly 32 bytes (a whole id), each registered peer other than the origin is written that same chunk exactly once per chunk, the origin never (no echo), nobody else; NotifyClient.connect: every read consumes exactly one whole id, each id read is looked up exactly once as its hex form and a found event is fanned out locally exactly once, EOF ends the loop quietly; NotifyClient.notify writes the 32 id bytes once.",
     "note": "Assumed: asyncio stream contracts (readexactly returns exactly n bytes in order or raises IncompleteReadError; write appends to the peer's stream), dict iteration yields each registered peer once. Not covered: peers joining/leaving while drain() yields (RuntimeError ends the origin's handler), the 2 s connect delay, events not yet written by the LMDB writer when the peer looks them up, notify_other_processes/setup wiring.",
+}
+
+CLAIMED["C10"] = {
+    "category": "proof",
+    "text": "Index.write is verified exact over the whole keyspace: for an arbitrary key k0, after write(event, txn, op) k0 is present iff (op == put if k0 is the suffixed form key+00+created_at+00+id of a key the index's convert() yields for the event, else as before); records untouched; clear = write(delete) through the same generator. TagIndex.convert yields exactly one key per indexable tag (single-letter, expiration, delegation with a value) under the tag's own name and value, nothing for other tags; to_key layouts of the tag/kind/created indexes are exact. WriterThread._delete_event clears every write index exactly once with the stored event inside the transaction; WriterThread.run: a committed add of a new event writes every write index exactly once with that event in one transaction, a failed task changes no key.",
+    "note": "Assumed: LMDB put/delete/abort semantics, msgpack round trip of canonical events (decode(encode(e)) = e up to list/tuple), bytes.fromhex / int.to_bytes / str.encode are uninterpreted functions (no injectivity needed for these clauses); the index objects in write_indexes are pairwise distinct. Not covered: the global coherence invariant as one induction over histories (the per-operation exactness above is its step), reindex/bulk_update, PubkeyIndex/AuthorKindIndex/IdIndex convert (same shape as the verified ones), interrupted reindex histories.",
+}
+CLAIMED["C12"] = {
+    "category": "proof",
+    "text": "kv.execute_one_plan returns at most plan.limit events (loop invariant count == len(events) <= limit on every path, including failing scans) and only events the matcher yielded. SQL: see C01 (the LIMIT literal) -- build_query is being added.",
+    "note": "Not covered yet: planner caps the limit at max_limit (fixed in 6e3c27b, unit pending), newest-first order of the scans (bounded check planned), the SQL statement's single LIMIT for several filters (known issue, not yet an obligation).",
 }
 
 NOT_APPLICABLE = {}
